@@ -72,6 +72,17 @@ def plan(tier, seed):
             for scale in (1.0, 1e-7, 1e5):
                 fl.append({"kind": "file", "cell": name, "what": what, "scale": scale})
     groups += [fl[k:k + 18] for k in range(0, len(fl), 18)]
+    hs = []
+    for cell_, S_, pm_ in (("NaCl", "222", "none"), ("NaCl", "nondiag", "none"), ("wurtzite", "222", "none"), ("tri3", "211", "none"), ("NaCl-ext", "222", "none")):
+        for n in (1, 2, 3):
+            hs.append({"kind": "history", "what": "masses-through-setter", "cell": cell_, "S": S_, "pm": pm_, "n": n})
+    for calc in (None, "qe", "wien2k", "abinit", "siesta", "cp2k", "crystal", "dftbp", "turbomole", "elk", "abacus", "aims", "castep", "fleur", "lammps", "pwmat", "vasp"):
+        for layout in ("full", "compact"):
+            hs.append({"kind": "history", "what": "external-fc-hdf5", "cell": "NaCl", "calc": calc, "layout": layout})
+    for cell_ in ("NaCl", "wurtzite", "tri3"):
+        for layout in ("full", "compact"):
+            hs.append({"kind": "history", "what": "stored-fc-win", "cell": cell_, "layout": layout})
+    groups += [hs[k:k + 10] for k in range(0, len(hs), 10)]
     meta = {"alphabet": {k: [str(x) for x in v] if k != "settings" else "all 32 subsets of %s (+None)" % SKEYS for k, v in AX.items()},
             "bound": "all tuples within deviation %d of the default tuple; file-level: complete product" % bound, "exhaustive": True,
             "not_covered": ["hdf5_settings (NotImplemented in phonopy)", "MLP datasets"]}
@@ -410,5 +421,99 @@ def run_file(case, seed):
     return dict(ok=True, nontrivial=True, transitions=2, outcome="ok:file:" + what)
 
 
+def _freqs(ph, qs=((0.1, 0.2, 0.3), (0.5, 0.0, 0.0), (0.0, 0.0, 0.02))):
+    ph.run_qpoints(np.array(qs, float))
+    return np.array(ph.get_qpoints_dict()["frequencies"])
+
+
+def run_history(case, seed):
+    """Round trips whose outcome depends on HOW the state was reached or on which of several stored items wins."""
+    import phonopy
+    from phonopy import file_IO as IO
+    from phonopy.interface.calculator import get_default_physical_units
+
+    what = case["what"]
+
+    def fail(kind, msg):
+        return dict(ok=False, sig="C16/history/%s/%s" % (what, kind), nontrivial=True, msg="%s: %s" % ({k: v for k, v in case.items() if k != "kind"}, msg))
+
+    cwd = os.getcwd()
+    with tempfile.TemporaryDirectory(prefix="c16h_") as td:
+        os.chdir(td)
+        try:
+            if what == "masses-through-setter":
+                # masses assigned through Phonopy.masses (once, twice, after a copy) before saving
+                ph, fcref = build(dict(DEFAULT, cell=case["cell"], S=case.get("S", "222"), fc="full", dataset="none", pm=case.get("pm", "none")), seed)
+                m0 = np.array(ph.masses, float)
+                seq = {1: [m0 * 1.33], 2: [m0 * 1.9, m0 * np.linspace(1.2, 1.7, len(m0))], 3: [m0 * 0.8, m0 * 1.1, m0 * np.linspace(2.0, 1.1, len(m0))]}[case["n"]]
+                for m_ in seq:
+                    ph.masses = m_
+                want = _freqs(ph)
+                out = ph.save("p.yaml", settings={"force_constants": True})
+                ph2 = phx.quiet(phonopy.load, out, produce_fc=False, log_level=0)
+                if np.abs(np.asarray(ph2.masses) - seq[-1]).max() > 5.1e-7:
+                    return fail("masses", "masses set through the setter (%d assignments) reload as %s instead of %s" % (case["n"], np.asarray(ph2.masses).round(4).tolist(), np.round(seq[-1], 4).tolist()))
+                for nm, cell in (("unitcell", ph2.unitcell), ("supercell", ph2.supercell)):
+                    bad = _masses_by_geometry(ph2, cell)
+                    if bad:
+                        return fail("masses", "%s of the reloaded object: %s" % (nm, bad))
+                e = np.abs(_freqs(ph2) - want).max() / max(np.abs(want).max(), 1e-9)
+                if e > 1e-6:
+                    return fail("phonons", "phonons of the reloaded object differ by %.3g (rel)" % e)
+            elif what == "external-fc-hdf5":
+                # force constants kept in force_constants.hdf5 (with its physical_unit attribute) next to a yaml without them
+                calc = case["calc"]
+                u = get_default_physical_units(calc)
+                ph, fcref = build(dict(DEFAULT, cell=case["cell"], fc=case["layout"], dataset="none", calculator=calc), seed)
+                want = _freqs(ph)
+                ph.save("p.yaml", settings={"force_constants": False})
+                p2s = np.asarray(ph.primitive.p2s_map)
+                IO.write_force_constants_to_hdf5(ph.force_constants, filename="force_constants.hdf5", p2s_map=p2s, physical_unit=u["force_constants_unit"])
+                for route, kw in (("force_constants_filename", {"force_constants_filename": "force_constants.hdf5"}), ("found-in-cwd", {})):
+                    ph2 = phx.quiet(phonopy.load, "p.yaml", log_level=0, **kw)
+                    if ph2.force_constants is None:
+                        return fail("fc-not-read", "%s: force constants were not picked up" % route)
+                    e = np.abs(_freqs(ph2) - want).max() / max(np.abs(want).max(), 1e-9)
+                    if e > 1e-6:
+                        return fail("phonons/%s" % calc, "calculator %s, %s: phonons differ by %.3g (rel) although the file states the calculator's own unit %s" % (calc, route, e, u["force_constants_unit"]))
+            elif what == "stored-fc-win":
+                # the file holds forces AND force constants that are not what the forces would give (cut off, edited, another solver):
+                # loading with default options must keep the stored ones
+                ph, fcref = build(dict(DEFAULT, cell=case["cell"], fc=case["layout"], dataset="type1"), seed)
+                fc = np.array(ph.force_constants) * 1.07
+                ph.force_constants = fc.copy()
+                want = _freqs(ph)
+                ph.save("p.yaml", settings={"force_constants": True, "force_sets": True})
+                for route, kw in (("default", {}), ("produce_fc=False", {"produce_fc": False}), ("symmetrize_fc=False", {"symmetrize_fc": False})):
+                    ph2 = phx.quiet(phonopy.load, "p.yaml", log_level=0, **kw)
+                    got = ph2.force_constants
+                    ref_ = fc
+                    if got is not None and got.shape != fc.shape and fc.shape[0] == fc.shape[1]:
+                        ref_ = fc[np.asarray(ph2.primitive.p2s_map)]  # load() may hand back the compact layout of the same numbers
+                    if got is None or got.shape != ref_.shape or np.abs(got - ref_).max() > 1e-12 * np.abs(fc).max():
+                        return fail("fc-overwritten", "load(%s): stored force constants were replaced (max change %.3g)" % (route, -1 if got is None or got.shape != ref_.shape else np.abs(got - ref_).max()))
+                    e = np.abs(_freqs(ph2) - want).max() / max(np.abs(want).max(), 1e-9)
+                    if e > 1e-6:
+                        return fail("phonons", "load(%s): phonons differ by %.3g (rel) from the saved calculation" % (route, e))
+            else:
+                raise ValueError(what)
+        finally:
+            os.chdir(cwd)
+    return dict(ok=True, nontrivial=True, transitions=3, outcome="ok:history:" + what)
+
+
+def _masses_by_geometry(ph, cell):
+    pr = ph.primitive
+    Lp, pp = np.asarray(pr.cell), np.asarray(pr.positions)
+    pos = np.asarray(cell.positions)
+    for i in range(len(cell)):
+        fr = (pos[i][None, :] - pp) @ np.linalg.inv(Lp)
+        j = np.where(np.abs(fr - np.rint(fr)).max(axis=1) < 1e-5)[0]
+        if len(j) != 1 or abs(cell.masses[i] - pr.masses[j[0]]) > 5.1e-7:
+            return "atom %d has mass %r, its primitive atom %s" % (i, cell.masses[i], [pr.masses[k] for k in j])
+    return None
+
+
 def run_group(cases, seed):
-    return [run_saveload(c, seed) if c["kind"] == "saveload" else run_file(c, seed) for c in cases]
+    fn = {"saveload": run_saveload, "file": run_file, "history": run_history}
+    return [fn[c["kind"]](c, seed) for c in cases]
